@@ -176,8 +176,10 @@ def r05b(ctx):
                 if isinstance(n, (ast.Assign, ast.AnnAssign, ast.AugAssign)) and n.value is not None and dep(n.value):
                     for t in (n.targets if isinstance(n, ast.Assign) else [n.target]):
                         for x in ast.walk(t):
-                            if isinstance(x, ast.Name):
+                            if isinstance(x, ast.Name) and isinstance(x.ctx, ast.Store):
                                 tainted.add(x.id)
+                        if isinstance(t, ast.Subscript) and isinstance(t.value, ast.Name):
+                            tainted.add(t.value.id)    # container[...] = tainted value
             for st, _ in tests:
                 if isinstance(st, (ast.If, ast.While)):
                     for b in st.body + st.orelse:
@@ -193,6 +195,15 @@ def r05b(ctx):
                            nontrivial=False)
         for st, test in tests:
             effs = []
+            # short-circuit: an effectful operand evaluated only if a state-dependent operand allows it
+            for bo in ast.walk(test):
+                if isinstance(bo, ast.BoolOp):
+                    seen_dep = False
+                    for v in bo.values:
+                        if seen_dep:
+                            effs += [(n_, w + " (in a short-circuit test)") for n_, w in effect_of_stmt(ast.Expr(value=v), eff_methods)]
+                        if dep(v):
+                            seen_dep = True
             if isinstance(st, (ast.If, ast.While)):
                 for b in st.body + st.orelse:
                     effs += effect_of_stmt(b, eff_methods)
@@ -289,10 +300,42 @@ def _paths_without_retain(stmts, v, field, retained=False):
     return bad
 
 
+def r05d(ctx):
+    m = ctx.model
+    ctx.rule("R05d", "WeightedBipartiteMatcher.matching solves the assignment only after _make_edges_distinct() has run "
+                     "unconditionally (listing sub-edits before refining must give the same pairing as refining first)")
+    q = m.need_class("WeightedBipartiteMatcher")
+    f = m.method(q, "matching")
+    solve = [c for c in walk_no_nested(f.node) if isinstance(c, ast.Call) and (call_name(c) or "").endswith("min_weight_bipartite_matching")]
+    ctx.floor("R05d", len(solve), 1, "solver calls in WeightedBipartiteMatcher.matching")
+    for c in solve:
+        st = c
+        while not isinstance(st, ast.stmt):
+            st = parent(st)
+        blk = parent(st)
+        body = getattr(blk, "body", [])
+        idx = body.index(st) if st in body else 0
+        pre = [x for x in body[:idx] if isinstance(x, ast.Expr) and isinstance(x.value, ast.Call)
+               and self_attr(x.value.func) == "_make_edges_distinct"]
+        if pre:
+            ctx.proved("R05d", f.file, "WeightedBipartiteMatcher.matching", c, "distinct before solve",
+                       "self._make_edges_distinct() is called unconditionally in the same block before the solver")
+        else:
+            anyc = [x for x in walk_no_nested(f.node) if isinstance(x, ast.Call) and self_attr(x.func) == "_make_edges_distinct"]
+            how = f"it is only called under a condition (line {anyc[0].lineno})" if anyc else "it is never called"
+            ctx.violation("R05d", f.file, "WeightedBipartiteMatcher.matching", c, "distinct before solve",
+                          f"the assignment is solved on the edges' current upper bounds but _make_edges_distinct() does not "
+                          f"necessarily run first ({how}): calling edits() before refining yields a different (non-optimal) "
+                          f"pairing than refining first")
+
+
 def run(ctx):
     r05a(ctx)
     r05b(ctx)
     r05c(ctx)
+    r05d(ctx)
+    from .c03 import r03d
+    r03d(ctx)
     from .c04 import r04d
     r04d(ctx)    # a non-definitive cached interval makes results depend on the order bounds()/tighten_bounds() are called
     ctx.assume("sub-edits hold no reference to the edit that owns them (calls on other objects do not change self's fields)")
